@@ -158,10 +158,12 @@ def place : List Placed → Nat → List (Piece × Nat)
 
 def itemOf (q : Piece × Nat) : C03.Item := q.1.item q.2
 
-/-- every object of a written body reads as itself at its offset -/
-theorem reads_body : ∀ (ps : List Placed) (s : Bytes) (pos : Nat) (rest : Bytes),
-    pos ≤ s.length → s.drop pos = bodyBytes ps ++ rest → (∀ q ∈ ps, q.p.Reads) →
-    ∀ q ∈ place ps pos, q.2 < s.length ∧ C03.ReadsAt 0 50 false s (itemOf q)
+/-- a property that holds of a piece wherever it is written holds at every offset of a written body -/
+theorem body_all (R : Piece → Bytes → Nat → Prop) : ∀ (ps : List Placed) (s : Bytes) (pos : Nat) (rest : Bytes),
+    pos ≤ s.length → s.drop pos = bodyBytes ps ++ rest →
+    (∀ q ∈ ps, 0 < q.p.bytes.length ∧
+      ∀ (s : Bytes) (i : Nat) (post : Bytes), i ≤ s.length → s.drop i = q.p.bytes ++ post → R q.p s i) →
+    ∀ q ∈ place ps pos, q.2 < s.length ∧ R q.1 s q.2
   | [], _, _, _, _, _, _ => by intro q hq; cases hq
   | p :: t, s, pos, rest, hpos, hd, hok => by
     intro q hq
@@ -179,6 +181,12 @@ theorem reads_body : ∀ (ps : List Placed) (s : Bytes) (pos : Nat) (rest : Byte
       have hd2 := drop_next hd1
       have hi2 := drop_le hd1 hi1
       rw [Nat.add_assoc] at hd2 hi2
-      exact reads_body t s _ rest hi2 hd2 (fun x hx => hok x (List.mem_cons_of_mem _ hx)) q hq
+      exact body_all R t s _ rest hi2 hd2 (fun x hx => hok x (List.mem_cons_of_mem _ hx)) q hq
+
+/-- every object of a written body reads as itself at its offset -/
+theorem reads_body (ps : List Placed) (s : Bytes) (pos : Nat) (rest : Bytes)
+    (hpos : pos ≤ s.length) (hd : s.drop pos = bodyBytes ps ++ rest) (hok : ∀ q ∈ ps, q.p.Reads) :
+    ∀ q ∈ place ps pos, q.2 < s.length ∧ C03.ReadsAt 0 50 false s (itemOf q) :=
+  body_all (fun p s i => C03.ReadsAt 0 50 false s (p.item i)) ps s pos rest hpos hd hok
 
 end Parsley.LoaderE2E
